@@ -7,13 +7,35 @@ HARNESS = "c19"
 COUNTS = {"quick": 400, "thorough": 6000}
 DESIGN_REF = "DESIGN.md §4 C19"
 TECHNIQUE = "Coq proof (view = denotation, assemble-then-view, marshal round trip, purity over call histories) + differential run of the extracted model against bindnode / codecHelpers, histories in child processes"
-LEVEL_TEXT = ""
-LEVEL_NOTE = ""
-TRUSTED = []
-RULE = ""
+LEVEL_TEXT = ("Theorems in coq/Props/C19.v about the executable model coq/Bind/Bind.v of bindnode (verifyCompatibility, "
+              "inferSchema over the process-global registry, inferGoType, the node view of a wrapped Go value at type and "
+              "representation level, the type-level and representation-level builders, Marshal/Unmarshal) and the "
+              "specification coq/Bind/Spec.v: for every bindable (schema type, Go type) pair and every well-formed Go value the "
+              "view succeeds and equals the value's denotation; every tree that fits the type is assembled into a well-formed "
+              "Go value that reads back as that tree; Marshal/Unmarshal through an order-preserving codec reproduces the data "
+              "(partial: the representation is assumed to fit); with the registry reused every call of every history of "
+              "Wrap/Prototype/Marshal/Unmarshal equals the same call on the initial state and never hits the duplicate-name "
+              "panic, which the pinned setting refutes. The model is tied to /repo by running the extracted model on the "
+              "records of a Go harness that binds 49 declared Go types (explicit and inferred schemas) and schema-inferred Go "
+              "types, with histories executed in child processes.")
+LEVEL_NOTE = ("Trusted: Coq kernel, extraction, the Go harness (reflection-based renderer/parser/generator of Go values, typed "
+              "dumper) and the OCaml driver. float32 conversion is a parameter of the model instantiated by OCaml's conversion. "
+              "Not modelled: custom converters, stringjoin/stringprefix/listpairs representations, recursive schemas, "
+              "non-String map keys. Key-sorting codecs are covered by the correspondence run, not by the round-trip theorem.")
+TRUSTED = ["float64->float32->float64 conversion: parameter narrow32 of the model (no hypothesis needed by the theorems); the driver supplies OCaml Int32.float_of_bits/bits_of_float",
+           "Go field lookup by strings.Title(schema field name): the model matches struct fields by position; the harness types follow the naming convention",
+           "dag-cbor / dag-json map key order is applied by the driver with sort_maps (codec correctness is C02-C04)"]
+RULE = ("49 declared Go types x {explicit schema, inferred schema where inferSchema applies}; records = probes of the known "
+        "findings, compatibility matrix (diagonal + random pairs), schema->Go type inference + build, Wrap of random "
+        "well-formed values (integer width extremes, nil/non-nil pointers, unions, enums, ordered maps), builds at type and "
+        "representation level from fitting and damaged trees, dag-cbor/dag-json round trips, and histories of 3-14 mixed "
+        "calls each in a child process; distinct = distinct input fields; non-trivial = input longer than 8 characters")
 
 
 def classify(fs):
     if fs[1] == "hist":
-        return "hist:" + fs[4] + ":" + fs[6]
+        ops = [st.split(",") for st in fs[2].split(";")]
+        return "hist:%d-steps:%s" % (len(ops), "inferred" if any(len(o) > 2 and o[2] == "i" for o in ops) else "explicit")
+    if fs[1] in ("build", "rt"):
+        return fs[1] + ":" + fs[3]
     return fs[1]
